@@ -31,40 +31,16 @@ def decode_request(prop, req):
 
 
 PROPS = {}
-
-PROPS["C09"] = {
-    "design_ref": "4.9",
-    "technique": "Lean 4 proof: verified regex-equivalence decision procedure (Antimirov derivatives + checked bisimulation certificate) on regexes regenerated from iri/src/_regex.rs vs RFC 3987 ABNF; differential vs regex crate/oxiri",
-    "level_text": "Proof (unbounded, all strings): the validators' regexes, regenerated from iri/src/_regex.rs on every run, accept exactly the RFC 3987 IRI / irelative-ref / IRI-reference languages and classify disjointly (kernel-checked soundness of the decision procedure; the per-regex obligation is evaluated by native_decide). Resolution (RFC 3986 5.2) is an executable Lean model compared with Iri::resolve/BaseIri on generated pairs: that part is differential, not proof.",
-    "level_note": "Trusted: RFC ABNF transcription; extract.py regex translator (cross-checked per case against the regex crate); native_decide (Lean compiler) for the four language obligations; oxiri internals only observed. Known findings: four RFC 3986 deviations/panics of resolution on dot-segment / authority-less corner cases.",
-    "tables": ["regexes"],
-    "lean_targets": ["SophiaProofs.Props.C09", "SophiaProofs.Audit.C09"],
-    "theorems": ["iri_regex_exact", "irel_regex_exact", "iriref_is_union", "abs_rel_disjoint"],
-    "native_ok": ["iri_regex_exact", "irel_regex_exact", "iriref_is_union", "abs_rel_disjoint"],
-    "trivial_re": r"^abs=0 rel=0|^skip",
-    "rule": "members sampled from the HIR of IRI_REGEX_SRC / IRELATIVE_REF_REGEX_SRC as parsed by regex-syntax "
-            "(every production reachable), 2 single-character mutants each over an alphabet containing all class "
-            "boundaries +-1, a fixed corpus of shapes absent from the shipped table, (base, reference) pairs; a case "
-            "is non-trivial when the implementation accepts the string (or resolves the pair); distinct = distinct request lines",
-    "trusted_base": ["RFC 3987 / RFC 3986 ABNF transcription lean/SophiaModel/Model/Iri3987.lean",
-                     "regex crate semantics for the supported syntax subset (cross-checked per case by the differential)",
-                     "oxiri (resolver) internals: observed through the differential only"],
-    "assumptions": ["Rust regex `is_match` with ^...$ = whole-string membership (checked per generated case against the Lean matcher)"],
-}
-
-# ---------------------------------------------------------------- known-finding predicates
-# A predicate characterises *one* recorded defect by the shape of the failing input and of
-# the failure; anything else of the same property is still reported as a violation.
-
 PREDICATES = {}
 
 
 def predicate(f):
+    """register a known-finding predicate (see known_findings.json `match.predicate`)"""
     PREDICATES[f.__name__] = f
     return f
 
 
-def _kv(line):
+def kv(line):
     d = {}
     for t in line.split():
         if "=" in t:
@@ -73,94 +49,17 @@ def _kv(line):
     return d
 
 
-def _c09_parts(failure):
-    toks = failure["request"].split()
-    if len(toks) != 3 or toks[0] != "r":
-        return None
-    base, ref = unhex(toks[1]), unhex(toks[2])
-    I, M = _kv(failure["impl"]), _kv(failure["model"])
-    sch = base.split(":", 1)[0]
-    after = base[len(sch) + 1:]
-    return base, ref, sch, after, I, M
+def _load():
+    import glob
+    import importlib.util
+    import os
+    here = os.path.dirname(os.path.abspath(__file__))
+    for p in sorted(glob.glob(os.path.join(here, "propcfg", "C*.py"))):
+        name = os.path.basename(p)[:-3]
+        spec = importlib.util.spec_from_file_location("propcfg_" + name, p)
+        m = importlib.util.module_from_spec(spec)
+        spec.loader.exec_module(m)
+        PROPS[name] = m.CONFIG
 
 
-def _has_dot_segment(path):
-    segs = path.split("?")[0].split("#")[0].split("/")
-    return any(s in (".", "..") for s in segs)
-
-
-@predicate
-def c09_rootpop(failure):
-    """authority-less base, '..' climbs past the root: oxiri drops the leading '/'"""
-    x = _c09_parts(failure)
-    if not x or failure.get("field") != "res":
-        return False
-    base, ref, sch, after, I, M = x
-    if after.startswith("//") or ref.startswith("//") or I.get("res") in (None, "panic"):
-        return False
-    a, b = unhex(I["res"]), unhex(M.get("o.res", ""))
-    return b == sch + ":/" + a[len(sch) + 1:] and ".." in ref
-
-
-@predicate
-def c09_resolve_panic_slashslash(failure):
-    """authority-less base and reference whose merged path has an empty segment ('//'): the
-    (intermediate or final) result would start with '//' without authority; oxiri errs, sophia unwraps"""
-    x = _c09_parts(failure)
-    if not x:
-        return False
-    base, ref, sch, after, I, M = x
-    if I.get("res") != "panic" or after.startswith("//") or ref.startswith("//"):
-        return False
-    if re.match(r"^[A-Za-z][A-Za-z0-9+.-]*:", ref):
-        return False
-    bpath = after.split("?")[0].split("#")[0]
-    rpath = ref.split("?")[0].split("#")[0]
-    merged = rpath if rpath.startswith("/") else bpath[:bpath.rfind("/") + 1] + rpath
-    return "//" in merged
-
-
-@predicate
-def c09_base_dot_segments(failure):
-    """dot segments already present in the *base* path are not removed by oxiri"""
-    x = _c09_parts(failure)
-    if not x or failure.get("field") != "res":
-        return False
-    base, ref, sch, after, I, M = x
-    if I.get("res") in (None, "panic"):
-        return False
-    # the reference itself is resolved correctly against a normalised base: only the base's own
-    # dot segments are at stake
-    return _has_dot_segment(after.split("?")[0].split("#")[0])
-
-
-@predicate
-def c09_ref_authority_dot_segments(failure):
-    """reference with its own scheme/authority: its dot segments are not removed"""
-    x = _c09_parts(failure)
-    if not x or failure.get("field") != "res":
-        return False
-    base, ref, sch, after, I, M = x
-    if I.get("res") in (None, "panic"):
-        return False
-    has_scheme = re.match(r"^[A-Za-z][A-Za-z0-9+.-]*:", ref) is not None
-    if not (ref.startswith("//") or has_scheme):
-        return False
-    return _has_dot_segment(ref.split("?")[0].split("#")[0])
-
-
-def _c09_witness_requests(lines):
-    """driver reply to `witness`: abs=<hex|none> rel=... -> membership requests for each witness and
-    its single-character neighbours (deletions)"""
-    reqs = []
-    for l in lines:
-        for k, v in _kv(l).items():
-            if v and v != "none":
-                reqs.append("m " + v)
-                w = unhex(v)
-                for i in range(len(w)):
-                    reqs.append("m " + ((w[:i] + w[i + 1:]).encode().hex() or "_"))
-    return reqs
-
-
-PROPS["C09"]["model_search"] = {"ask": ["witness"], "to_requests": _c09_witness_requests}
+_load()
